@@ -1297,9 +1297,8 @@ func checkStrictDocumentDecoding(r *Run, p *packages.Package, reach map[*types.F
 		if usesUnmarshal && !usesDecoder {
 			n++
 			r.Pass(rule, "readManifest:json.Unmarshal", rm.Pos(), "the whole file is handed to json.Unmarshal, which rejects trailing data")
-		} else if !usesDecoder {
-			r.Undecide("C20-R6: readManifest neither calls json.Unmarshal nor a Decoder")
 		}
+		// otherwise the read goes through a Decoder here or in a helper, which the loop above has judged
 	}
 	if n < 3 {
 		r.Undecide("C20-R6: expected at least three single-document JSON reads in package retriever, found %d", n)
